@@ -1,9 +1,23 @@
 #!/usr/bin/env python3
 """Runs the quick tier of the owning property (and listed alternates) against every seeded change and writes seeded/KILLTABLE.md."""
 import glob, json, os, re, subprocess, sys
-ALT = {"C01-2": ["C12"], "C01-4": ["C12", "C11"], "C11-1": ["C12"], "C11-3": ["C12"], "C04-3": ["C05"], "C13-2": ["C19"], "C12-4": ["C11"], "C05-6": ["C15"], "C04-5": ["C05"], "C14-6": ["C16"], "C14-8": ["C16"], "C16-8": ["C13"], "C01-8": ["C10"], "C04-8": ["C05"]}
+ALT = {"C01-2": ["C12"], "C01-4": ["C12", "C11"], "C11-1": ["C12"], "C11-3": ["C12"], "C04-3": ["C05"], "C13-2": ["C19"], "C12-4": ["C11"], "C05-6": ["C15"], "C04-5": ["C05"], "C14-6": ["C16"], "C14-8": ["C16"], "C16-8": ["C13"], "C01-8": ["C10"], "C04-8": ["C05"], "C01-10": ["C12"], "C02-9": ["C10", "C11"], "C04-9": ["C05", "C15"], "C18-9": ["C17"], "C14-9": ["C16"], "C19-10": ["C17"], "C01-9": ["C11"]}
 rows = []
-for d in sorted(glob.glob('/verif/seeded/C*-*')):
+only = sys.argv[1] if len(sys.argv) > 1 else None  # regex over seed names: re-run these and merge into the table
+old = {}
+if only and os.path.exists('/verif/seeded/KILLTABLE.md'):
+    for l in open('/verif/seeded/KILLTABLE.md'):
+        m = re.match(r'\| (C\d+-\d+) \| (.*) \| (.*) \|$', l.rstrip())
+        if m:
+            old[m.group(1)] = (m.group(1), m.group(2), m.group(3))
+def seedkey(d):
+    a, b = os.path.basename(d).split('-')
+    return (a, int(b))
+for d in sorted(glob.glob('/verif/seeded/C*-*'), key=seedkey):
+    if only and not re.search(only, os.path.basename(d)):
+        if os.path.basename(d) in old:
+            rows.append(old[os.path.basename(d)])
+        continue
     name = os.path.basename(d)
     prop = name.split('-')[0]
     meta = json.load(open(d + '/meta.json'))
